@@ -122,6 +122,12 @@ CHECKS["C08"] = (
     "Sets are owned by injecting an order-controlled subclass as the name 'set' into the tool's modules and wrapping os.scandir/os.listdir (no source hook); mypy's/griffe's internal orders are covered only by the hash-seed probe; orders offered for n>3 elements are rotations and reversal.",
     "6/C08",
 )
+CHECKS["C01"] = (
+    "bounded-exhaustive enumeration of declaration / tree / docstring forms through the real pipeline under enumerated option sets, with bisection of failing packed runs to the culprit form; console-script runs for exit status and termination",
+    "311 forms - one per dispatch arm or unguarded assumption in the anchored code: parameters and defaults of 36 expression classes (typed/untyped), un-annotated returns of 38 expression classes in functions and methods, 50 annotation constructs in parameter/result/class-attribute/instance-attribute position, PEP 695 forms, 30 class forms (generics, protocols, enums, NamedTuple, TypedDict, dataclasses, metaclass, nested, exceptions, private/unresolvable bases, class named like its module), 20 attribute forms, 22 function forms (overloads, property setters, decorators, conditional and duplicate definitions), 18 module/tree forms (star/relative/dotted imports, cycles, __main__, namespace directories, declarations in __init__, re-export mixes), 15 docstring forms per style incl. malformed sections. Each form alone in a module: packed under default options (failing runs bisected until the culprit is isolated and every other form is judged), under the 8 docstring-style x naming combinations, and the packed package under all 64 option combinations; thorough adds failing forms alone under all 64 and all ordered pairs of single-file forms inside one module; console-script runs incl. 5 degenerate inputs. Outcome must be 'completed' (API JSON written) or the documented rejection.",
+    "The form alphabet is hand-written: forms not in it are not explored (weakest claim of the 20). Termination is decided up to 600 s per run; inputs mypy refuses with a blocking error are outside the domain.",
+    "6/C01",
+)
 NOT_YET = {}  # id -> reason (filled for properties without a check)
 
 props = [json.loads(l) for l in open(V / "properties.jsonl")]
